@@ -110,9 +110,13 @@ pub fn err_of(e: &CompilationError) -> Built {
 
 /// whole-program compile of `<root>/main.gom`; also returns stage dumps for determinism checks
 pub fn whole(root: &Path) -> (Built, Vec<(String, String)>) {
-    let path = root.join("main.gom");
-    let src = std::fs::read_to_string(&path).unwrap_or_default();
-    match compile_at(&path, &src) {
+    whole_at(&root.join("main.gom"))
+}
+
+/// the same, for an entry path spelled as given (possibly relative to the current directory)
+pub fn whole_at(path: &Path) -> (Built, Vec<(String, String)>) {
+    let src = std::fs::read_to_string(path).unwrap_or_default();
+    match compile_at(path, &src) {
         CompileOutcome::Ok(c) => {
             let go = go_text(&c).unwrap_or_else(|m| format!("<go printer panic: {}>", m));
             let dumps = vec![
